@@ -78,8 +78,36 @@ fn bursty_jitter_walks(ctx: &mut Ctx) {
     }
 }
 
+/// Fixed walks: tasks with ever later deadlines and ever shorter non-preemptive segments are added one by one; the
+/// blocking a task under EDF suffers is the *longest* segment among all later-deadline tasks, so no addition may lower a bound
+fn edf_blocking_walks(ctx: &mut Ctx) {
+    let mk = |c: u64, t: u64, dl: u64, seg: u64| json!({"a": {"k": "sporadic", "T": t, "J": 0}, "c": {"k": "scalar", "c": c}, "C": c,
+                                                          "D": dl, "seg": seg, "last": 1});
+    for (ct, tt, dt) in [(2u64, 50u64, 10u64), (3, 40, 12)] {
+        for (c1, seg1, d1) in [(10u64, 8u64, 60u64), (6, 5, 40)] {
+            for (c2, seg2, d2) in [(3u64, 2u64, 90u64), (4, 1, 70)] {
+                let mut tasks = vec![mk(ct, tt, dt, 1), mk(c1, 100, d1, seg1)];
+                let adds = [mk(c2, 100, d2, seg2), mk(2, 120, d2 + 30, 1)];
+                for step in 0..3 {
+                    if step > 0 {
+                        tasks.push(adds[step - 1].clone());
+                    }
+                    let sys = json!({"tasks": tasks, "B": 0, "lim": 120});
+                    let res = guarded(&json!({"sys": sys}), ctx.watchdog_ms, results_call);
+                    if !res.is_object() || res.get("panic").is_some() || res.get("hang").is_some() {
+                        break;
+                    }
+                    ctx.sink.raw(&json!({"op": if step == 0 { "reset" } else { "harden" }, "kind": if step == 0 { "reset" } else { "add_task" },
+                                         "sys": sys, "res": res}));
+                }
+            }
+        }
+    }
+}
+
 pub fn run(ctx: &mut Ctx) {
     bursty_jitter_walks(ctx);
+    edf_blocking_walks(ctx);
     let walks = if ctx.thorough { 30000 } else { 3500 };
     let (tmax, limmax) = if ctx.thorough { (24, 160) } else { (10, 60) };
     for w in 0..walks {
